@@ -1332,3 +1332,83 @@ func (c *Check) exportedHashWindow(rule string) {
 	}
 	c.Held(rule, cons, p.InstrPos(site), fmt.Sprintf("reads tip, tip-1, …; the guard %s still holds for the counter value %d that reads height 0", r.E(cond), -k))
 }
+
+
+// voteKeyRepresentation (C16/R6, C18/R6, C01/R6): a voter record holds the HASH of its vote key while it is
+// VOTER_STATUS_PENDING and the key itself afterwards. Wherever the relayer module chooses between `v.VoteKey` and
+// `SHA256Sum(v.VoteKey)` of one record, the raw field is taken only on the way where the status is Pending and the
+// hashed one only where it is not — otherwise the uniqueness lookup (and the proof check) compares unlike things.
+func (c *Check) voteKeyRepresentation(rule string) {
+	p := c.p
+	n := 0
+	for _, f := range p.ProdFuncs {
+		if p.isGenerated(f) || len(f.Blocks) == 0 || !strings.HasPrefix(FuncKey(rootOf(f)), "x/relayer/") {
+			continue
+		}
+		r := p.R(f)
+		for _, b := range f.Blocks {
+			for _, in := range b.Instrs {
+				ph, ok := in.(*ssa.Phi)
+				if !ok {
+					break
+				}
+				var raw, hashed []int
+				rec := ""
+				for k, e := range ph.Edges {
+					s := r.E(e)
+					if m := regexp.MustCompile(`^crypto\.SHA256Sum\(\[(.*)\.VoteKey\]\)$`).FindStringSubmatch(s); m != nil {
+						hashed = append(hashed, k)
+						rec = m[1]
+					}
+				}
+				if rec == "" {
+					continue
+				}
+				for k, e := range ph.Edges {
+					if r.E(e) == rec+".VoteKey" {
+						raw = append(raw, k)
+					}
+				}
+				if len(raw) == 0 {
+					continue
+				}
+				n++
+				c.touch(f)
+				pend, notPend := EQ("VOTER_STATUS_PENDING", rec+".Status"), NE("VOTER_STATUS_PENDING", rec+".Status")
+				factsInto := func(k int) map[string]bool {
+					m := map[string]bool{}
+					pred := b.Preds[k]
+					for _, ef := range p.EdgeFacts(f) {
+						if ef.Pred == nil && ef.Block == pred && pred.Succs[ef.Idx] == b && len(pred.Succs) == 2 && pred.Succs[0] != pred.Succs[1] {
+							m[ef.Fact] = true
+						}
+					}
+					if term := pred.Instrs[len(pred.Instrs)-1]; term != nil {
+						for _, ft := range p.guardFactsOf(f, term) {
+							m[ft] = true
+						}
+					}
+					return m
+				}
+				cons := "vote-key-representation @ " + FuncKey(f)
+				bad := ""
+				for _, k := range raw {
+					if !factsInto(k)[pend] {
+						bad = "the raw VoteKey field is used where the record is not known to be Pending (it then holds the key, not its hash)"
+					}
+				}
+				for _, k := range hashed {
+					if !factsInto(k)[notPend] {
+						bad = "the hash of the VoteKey field is used where the record is not known to be past Pending (the field then already is a hash)"
+					}
+				}
+				if bad == "" {
+					c.Held(rule, cons, p.InstrPos(ph), "raw under "+pend+", hashed under "+notPend)
+				} else {
+					c.Violated(rule, cons, p.InstrPos(ph), bad)
+				}
+			}
+		}
+	}
+	c.Floor(rule, "choices between a vote key and its hash", n, 1)
+}
